@@ -83,10 +83,91 @@ fn strategy(_t: Tier) -> BoxedStrategy<DecCase> {
         .boxed()
 }
 
+/// a matrix of the same shape and the same row weights that differs slightly from `m`:
+/// 0 = two entries of one row moved towards each other (column-index sum of the row unchanged),
+/// 1 = first and last column exchanged, 2 = rows in reverse order, 3 = one entry moved to the next free column
+fn perturb(m: &Mat, kind: usize) -> Option<Mat> {
+    let mut rows = m.row_lists();
+    for r in rows.iter_mut() {
+        r.sort_unstable();
+    }
+    match kind % 4 {
+        0 => {
+            for r in rows.iter_mut() {
+                for i in 0..r.len() {
+                    for j in i + 1..r.len() {
+                        let (a, b) = (r[i], r[j]);
+                        if b >= a + 3 && !r.contains(&(a + 1)) && !r.contains(&(b - 1)) {
+                            r[i] = a + 1;
+                            r[j] = b - 1;
+                            let out = Mat::from_rows(m.rows, m.cols, &rows);
+                            return Some(out);
+                        }
+                    }
+                }
+            }
+            None
+        }
+        1 => {
+            let last = m.cols - 1;
+            for r in rows.iter_mut() {
+                for c in r.iter_mut() {
+                    *c = if *c == 0 { last } else if *c == last { 0 } else { *c };
+                }
+            }
+            Some(Mat::from_rows(m.rows, m.cols, &rows))
+        }
+        2 => {
+            rows.reverse();
+            Some(Mat::from_rows(m.rows, m.cols, &rows))
+        }
+        _ => {
+            for r in rows.iter_mut() {
+                if let Some(i) = (0..r.len()).find(|&i| r[i] + 1 < m.cols && !r.contains(&(r[i] + 1))) {
+                    r[i] += 1;
+                    return Some(Mat::from_rows(m.rows, m.cols, &rows));
+                }
+            }
+            None
+        }
+    }
+    .filter(|h2| h2.set() != m.set())
+}
+
 fn check_diff(case: &DecCase, p: &mut Probe) -> Check {
     let llrs = fx_vec(&case.llrs);
     let hs = case.h.to_sparse();
     let mut direct_out = Vec::with_capacity(36);
+    // consecutive builds: for a quarter of the names the factory is asked, right after building the
+    // decoder for H, for the same name on a slightly different matrix of the same shape and row
+    // weights; that second decoder must be the decoder of the second matrix
+    let h2 = perturb(&case.h, case.h.ones.len() + case.limit);
+    let llrs2: Option<Vec<f64>> = h2.as_ref().map(|h2| {
+        let c = codeword_of(h2, case.h.ones.len() as u64 * 0x9e37 + 5);
+        c.iter().zip(&llrs).map(|(&b, &l)| {
+            let m = if l.is_finite() { l.abs().min(20.0) + 2.0 } else { 9.0 };
+            if b == 1 { -m } else { m }
+        }).collect()
+    });
+    for (ni, name) in NAMES.iter().enumerate() {
+        if let (Some(h2), Some(l2), true) = (&h2, &llrs2, (ni + case.h.ones.len()) % 4 == 0) {
+            let imp = name.parse::<DecoderImplementation>().map_err(|e| Fail::new("from_str", format!("{name}: {e}")))?;
+            let h2s = h2.to_sparse();
+            let _first = build_factory(&imp, hs.clone());
+            let mut a2 = build_factory(&imp, h2s.clone());
+            let mut b2 = build_direct(name, h2s).unwrap();
+            for (which, v) in [("a noisy codeword of the second matrix", l2), ("the frame of the case", &llrs)] {
+                let lim = case.limit.max(1);
+                let ra = guarded(|| a2.decode(v, lim)).map_err(|e| Fail::new("panic", format!("{name}: factory decoder (second build) panicked: {e}")))?;
+                let rb = guarded(|| b2.decode(v, lim)).map_err(|e| Fail::new("panic", format!("{name}: direct decoder panicked: {e}")))?;
+                if ra != rb {
+                    return Err(Fail::new("factory-mismatch-second-build", format!("{name}: built by the factory right after a decoder of the same name for another matrix of the same shape ({:?} then {:?}), the decoder returns {ra:?} on {which}, the generic decoder for the second matrix returns {rb:?}", case.h.ones, h2.ones)));
+                }
+            }
+            p.class("second-build-of-a-name-on-a-similar-matrix");
+            p.inner += 1;
+        }
+    }
     for name in NAMES {
         let imp = name.parse::<DecoderImplementation>().map_err(|e| Fail::new("from_str", format!("{name}: {e}")))?;
         let mut a = build_factory(&imp, hs.clone());
@@ -262,7 +343,7 @@ pub fn property() -> Property {
             }),
             Box::new(Sub {
                 name: "differential",
-                rule: "for each of the 36 names, factory-built decoder vs the generic decoder constructed directly from the named arithmetic type and schedule, on a separating family of inputs (C01 classes + strong LLRs 9..16.2 with sign flips so that degree-one clipping, Jones clipping, partial hard limiting, f32 saturation and schedule differences matter; H up to 10 x 14; limits {0,1,2,3,5,10}); outputs must be identical; non-trivial = a case on which at least two of the 36 direct decoders disagree; inner evaluations = compared decoder pairs",
+                rule: "for each of the 36 names, factory-built decoder vs the generic decoder constructed directly from the named arithmetic type and schedule, on a separating family of inputs (C01 classes + strong LLRs 9..16.2 with sign flips so that degree-one clipping, Jones clipping, partial hard limiting, f32 saturation and schedule differences matter; H up to 10 x 14; limits {0,1,2,3,5,10}); outputs must be identical; for a quarter of the names the factory is asked twice in a row, the second time for a slightly different matrix of the same shape and row weights (two entries of a row moved towards each other, two columns exchanged, rows reversed, one entry moved), and that decoder is compared with the direct decoder of the second matrix; non-trivial = a case on which at least two of the 36 direct decoders disagree; inner evaluations = compared decoder pairs",
                 cases: |t| t.pick(100_000, 3_000_000),
                 strategy,
                 check: check_diff,
